@@ -13,18 +13,21 @@ EXTENDS EventIdentity, Json
 VersionsAll == AllVersions
 ShapesAll == AllShapes
 ShapesC03 == 1..14        \* 15-16 differ from 4-5 only in who must sign: C04's subject
+ShapesOpsQuick == {1, 2, 3, 4, 5, 6, 7, 9, 12, 13, 14}   \* length-3 behaviours: without join_rules, history_visibility, aliases (in opsb, sib)
 ShapesLite == {1, 2, 5, 7, 9, 12}
 ShapesNum == {1, 7, 9}         \* message (number redactable), create (kept whole from v11), power levels
 VariantsAll == AllVariants
 Variants12 == {1, 2}
 Variants1 == {1}
 Variants2 == {2}
+Variants256 == {2, 5, 6}
+Variants125 == {1, 2, 5}
 AlphabetFull == OpNames
 AlphabetQuick == {"RU", "RT", "RH", "SU1", "SF", "AS2", "RD"}
 NoOps == {}
 PreNone == {"none"}
 PreSib == {"none", "RU", "RD", "AS2", "SU1"}
-PreSibQuick == {"none", "RD", "AS2"}
+PreSibQuick == {"none", "RD"}
 PreTamper == {"none", "AS2", "SU1", "RD"}
 PreTamperQuick == {"none", "AS2", "RD"}
 SibAll == AllSibFields
